@@ -82,6 +82,10 @@ class EvalContext(NamedTuple):
 
     stats_time: Dict[ProcessingStage, float]
 
+    # The paths that the evaluation loads without producing them, with the key they resolved to when the evaluation
+    # was analysed (the signatures of the functions that load them were computed from these keys).
+    resolved_paths: Optional[Dict[DDSPath, PyHash]] = None
+
 
 # The name of a codec protocol.
 ProtocolRef = NewType("ProtocolRef", str)
